@@ -3,6 +3,7 @@ package database
 import (
 	"context"
 	"fmt"
+	"reflect"
 	"sync"
 )
 
@@ -248,10 +249,23 @@ func sameID(stored, lookup interface{}) bool {
 	if stored == nil || lookup == nil {
 		return false
 	}
-	if stored == lookup {
+	if looseEqual(stored, lookup) {
 		return true
 	}
 	return fmt.Sprint(stored) == fmt.Sprint(lookup)
+}
+
+// looseEqual compares a stored field with a lookup value. Both come from
+// request data and may be arrays or objects, which == cannot compare (it
+// panics); those are compared structurally instead.
+func looseEqual(stored, value interface{}) bool {
+	if stored == nil || value == nil {
+		return stored == nil && value == nil
+	}
+	if !reflect.TypeOf(stored).Comparable() || !reflect.TypeOf(value).Comparable() {
+		return reflect.DeepEqual(stored, value)
+	}
+	return stored == value
 }
 
 // Get retrieves a record by ID
@@ -320,7 +334,7 @@ func (m *MockTableHandler) Count(column string, value interface{}) int64 {
 
 	count := int64(0)
 	for _, record := range m.db.data[m.name] {
-		if record[column] == value {
+		if looseEqual(record[column], value) {
 			count++
 		}
 	}
@@ -334,7 +348,7 @@ func (m *MockTableHandler) CountWhere(column1 string, value1 interface{}, column
 
 	count := int64(0)
 	for _, record := range m.db.data[m.name] {
-		if record[column1] == value1 && record[column2] == value2 {
+		if looseEqual(record[column1], value1) && looseEqual(record[column2], value2) {
 			count++
 		}
 	}
@@ -348,7 +362,7 @@ func (m *MockTableHandler) Filter(column string, value interface{}) []interface{
 
 	result := make([]interface{}, 0)
 	for _, record := range m.db.data[m.name] {
-		if record[column] == value {
+		if looseEqual(record[column], value) {
 			result = append(result, record)
 		}
 	}
